@@ -1,13 +1,19 @@
 """C03 — CRPS equals its definition and its decomposition is exact.
 
-Model: lean/HydroVerif/Model/C03.lean (`c_crps` with use_weights=0/is_sorted=0 + the wrapper's filtering);
-theorems: lean/HydroVerif/Props/C03.lean; lemmas: lean/HydroVerif/Lemmas/C03Energy.lean, C03.lean.
+Model: lean/HydroVerif/Model/C03.lean (`c_crps` with use_weights=0/is_sorted=0 + the wrapper's filtering and shape
+handling; the extension-level entry `c_hydrodiy_stat.crps` with flags, weights and caller-owned output arrays as
+histories of operations; the executable definition `definitionCrps`);
+theorems: lean/HydroVerif/Props/C03.lean; lemmas: lean/HydroVerif/Lemmas/C03Energy.lean, C03.lean, C03Entry.lean,
+C03Pyx.lean, C03Round.lean.
 
 Correspondence: every case is run through `hydrodiy.stat.metrics.crps` (extension rebuilt from the working
 tree) and through the model driver; the 5 decomposition numbers and the (m+1)x7 table (except the 0/0 cells of
 empty inner bins, which the property does not constrain) are compared with
 the Float instance (<= 4 ulp; `resolution` condition-scaled because it is a difference), error kinds are
-compared by name, and on small cases the exact Rat instance is compared with the code to 1e-11 relative.
+compared by name, and on small cases the exact Rat instance is compared with the code to 1e-11 relative; on the
+same small cases the Lean definition `definitionCrps` (exact, Rat) must equal the oracle's exact definition as a
+rational. Extension level: after every operation of a history on one pair of output arrays the content of both
+arrays and the outcome (0 / EDOM / AssertionError) are compared with `runOps` (<= 4 ulp).
 
 Oracle (on the real code only, exact rationals, independent of the model): CRPS = mean of
 E|X-y| - E|X-X'|/2 over the unsorted members; crps = reliability + potential; resolution = uncertainty -
@@ -19,11 +25,16 @@ documented layouts ([n], [n,1], lists, strided, Fortran, integer) accepted.
 
 Cases: exhaustive small grids (n<=2, m<=3, values {0,1,2}: every tie pattern / outlier pattern), tie-rich
 dyadic grids, observations below / at / above the whole ensemble for every forecast, constant ensembles,
-single member, random normal with wide dynamic range, n up to 40, m up to 30, NaN observations and all-NaN
+single member, random normal with wide dynamic range (1e-290 .. 1e304), n up to 40, m up to 30, grid data times
+2^k over the whole exponent range (largest value just below 2^1021 with up to 70 forecasts, 2^+-512 where squares
+over/underflow, granule 2^-960), exact power-of-two scaling to both ends of the range, NaN observations and all-NaN
 rows; malformed stream: length mismatch, zero members, nothing valid; shape stream: observations / ensembles
-given as scalars, vectors, [n,1], [1,n], [n,1,1], genuinely 2-D, empty (model op crpsnd, error kinds by name);
+given as scalars, vectors, [n,1], [1,n], [n,1,1], genuinely 2-D, empty, 3-D ensembles (model op crpsnd, error kinds by name; 3-D: "rejected" only);
 history stream: 2-4 calls on the same argument objects with in-place edits of the arguments or of the returned
-objects, equal-size re-assignments, NaN set/cleared, other arguments in between, pickle/deepcopy round trips;
+objects, equal-size re-assignments, NaN set/cleared, other arguments of the same or of another size (more / fewer
+forecasts and members) in between, rejected calls in between, pickle/deepcopy round trips; extension-level
+stream: 2-7 operations on one pair of output arrays (fill, call, call again = accumulate, explicit weights,
+is_sorted=1 on sorted / unsorted rows, wrong shapes, zero forecasts, flag values other than 0/1; model op pyxrun);
 one long series (n > 46340). Non-trivial: accepted call with CRPS > 0.
 """
 import errno
@@ -167,11 +178,12 @@ def same_exact(impl, modelq, n, m):
         return False
     scale = max([abs(x) for x in modelq[2][3::7] if x is not None] + [abs(modelq[1][0]), abs(modelq[1][3])])
     tol = Fraction(64 * (n * n + m * m + 8) * EPS)
+    floor = Fraction(16 * (n * n + n * m + m + 8), 2 ** 1074)     # gradual underflow of a product (absolute)
 
     def ok(a, q, sc):
         if q is None:
             return True          # 0/0 cell of an empty inner bin: unconstrained
-        return (not isnan(a)) and math.isfinite(a) and abs(Fraction(a) - q) <= tol * sc
+        return (not isnan(a)) and math.isfinite(a) and abs(Fraction(a) - q) <= tol * sc + floor
     return (all(ok(a, q, scale) for a, q in zip(impl[1], modelq[1])) and
             all(ok(a, q, Fraction(1) if k % 7 in (0, 4) else scale) for k, (a, q) in enumerate(zip(impl[2], modelq[2]))))
 
@@ -228,6 +240,47 @@ def exact_parts(obs, ens):
     return {"crps": crps, "unc": unc, "reli": reli, "pot": pot, "G": sum(g), "a": a, "b": b}
 
 
+TOP = 1021          # |values| <= 2^TOP: every difference, weighted sum and total of the kernel stays below 2^1023
+BOTTOM = -960       # smallest granule 2^BOTTOM: granule / n stays a normal double (no gradual underflow in a product)
+
+
+def dom_exp(n, m):
+    """the oracle's magnitude bound for n forecasts of m members: |values| <= 2^dom_exp(n, m) keeps even the
+    UN-NORMALISED defining sums finite (sum over the n forecasts, over the n^2 ordered pairs of observations, over
+    the m^2 ordered pairs of members, each term <= 2 max|v|), so that the answer cannot depend on whether an
+    implementation weights every term or normalises a raw sum once. Above it (up to 2^TOP, where the kernel as
+    written is still exact) data is generated for the model/code correspondence only: there "equal to the
+    definition" would hold or fail with the order of summation and normalisation, which the property leaves free."""
+    k = max(n, m, 2)
+    return 1022 - 2 * (k - 1).bit_length() - 1
+
+
+def top_exp(vals):
+    """smallest e with |v| < 2^e for all finite v (None when all are 0)"""
+    big = max([abs(v) for v in vals if math.isfinite(v)] + [0.0])
+    return None if big == 0 else math.frexp(big)[1]
+
+
+def granule_exp(vals):
+    """largest q such that every finite v is a multiple of 2^q (None when all are 0)"""
+    qs = []
+    for v in vals:
+        if math.isfinite(v) and v != 0:
+            num, den = Fraction(v).numerator, Fraction(v).denominator
+            qs.append(((num & -num).bit_length() - 1) - (den.bit_length() - 1))
+    return min(qs) if qs else None
+
+
+def all_values(case):
+    return [y for y in case["obs"]] + [x for r in case["ens"] for x in r]
+
+
+def scaled(case, j):
+    """the case with every value multiplied by 2^j (exact when the caller keeps granule and top in range)"""
+    return {**case, "obs": [math.ldexp(y, j) for y in case["obs"]],
+            "ens": [[math.ldexp(x, j) for x in r] for r in case["ens"]]}
+
+
 def fr(x):
     """exact rational of a float returned by the code; +-inf / NaN become a huge sentinel so that every
     comparison with them fails (and is reported as a finding) instead of raising"""
@@ -256,8 +309,11 @@ class Oracle:
         crps, reli, resol, unc, pot = res[1]
         K = 16 * (n * n + m + 8) * EPS
         scale = max(ex["G"], ex["crps"], ex["unc"])
-        tolc = Fraction(8 * (n + m + 8) * EPS) * ex["crps"] + Fraction(1, 10 ** 300)
-        tolg = Fraction(K) * scale + Fraction(1, 10 ** 300)
+        # absolute floor: every product / sum of the kernel is rounded to a multiple of 2^-1074 at the bottom of
+        # the exponent range (gradual underflow), and b0/o0, aN/(1-oN) amplify such an error by at most n
+        self.floor = floor = Fraction(16 * (n * n + n * m + m + 8), 2 ** 1074)
+        tolc = Fraction(8 * (n + m + 8) * EPS) * ex["crps"] + floor
+        tolg = Fraction(K) * scale + floor
         self.tolfreq = Fraction(K)
         if not all(math.isfinite(v) for v in res[1]):
             self.flag("crps/non_finite", "a decomposition term is NaN or infinite on finite input", case, returned=res[1])
@@ -281,7 +337,7 @@ class Oracle:
             if not qclose(pot, ex["pot"], tolg):
                 self.flag("crps/potential_ne_hersbach", "potential CRPS differs from Hersbach's definition", case,
                           returned=pot, required=ex["pot"])
-            if not qclose(unc, ex["unc"], Fraction(8 * (n + 8) * EPS) * ex["unc"] + Fraction(1, 10 ** 300)):
+            if not qclose(unc, ex["unc"], Fraction(8 * (n + 8) * EPS) * ex["unc"] + floor):
                 self.flag("crps/uncertainty_ne_pairwise", "uncertainty differs from sum|y_k-y_l|/(2 n^2)", case,
                           returned=unc, required=ex["unc"])
         return ex, tolg
@@ -293,7 +349,7 @@ class Oracle:
         if clim[0] != "ok":
             self.flag("crps/climatology_rejected", "crps(obs, climatology) is rejected", case, reply=clim[1])
             return
-        tol = Fraction(16 * (2 * n + 16) * EPS) * ex["unc"] + Fraction(1, 10 ** 300)
+        tol = Fraction(16 * (2 * n + 16) * EPS) * ex["unc"] + Fraction(16 * (2 * n * n + n + 8), 2 ** 1074)
         if not qclose(clim[1][0], fr(res[1][3]), tol):
             self.flag("crps/uncertainty_ne_climatology_crps",
                       "uncertainty differs from the CRPS returned for the climatology ensemble", case,
@@ -307,7 +363,7 @@ class Oracle:
         f = Fraction(factor)
         bad = []
         for k, (x, y) in enumerate(zip(res[1], other[1])):
-            t = tolg * f * (4 if k == 2 else 1)
+            t = tolg * f * (4 if k == 2 else 1) + self.floor
             if not qclose(y, fr(x) * f, t):
                 bad.append(DEC[k])
         for k, (x, y) in enumerate(zip(res[2], other[2])):
@@ -315,7 +371,7 @@ class Oracle:
             ff = f if col in (1, 2, 3, 5, 6) else Fraction(1)
             if isnan(x) or (isnan(y) and col in (4, 5, 6)):
                 continue         # empty inner bin: cell unconstrained
-            elif not qclose(y, fr(x) * ff, self.tolfreq if col in (0, 4) else tolg * f):
+            elif not qclose(y, fr(x) * ff, self.tolfreq if col in (0, 4) else tolg * f + self.floor):
                 bad.append(f"table[{k // 7}].{COLS[col]}")
         if bad:
             self.flag(sig, what, case, differs=bad[:6], **(extra or {}))
@@ -334,31 +390,60 @@ class Oracle:
         self.cmp_all("crps/forecast_order_dependent", "result depends on the order of forecasts", case, res,
                      call_impl({**case, "obs": [obs[i] for i in idx], "ens": [ens[i] for i in idx], "layout": "flat"}),
                      tolg, extra={"order": idx})
+        vals = all_values(case)
+        e, q = top_exp(vals), granule_exp(vals)
         if exact_grid:
-            c = rng.choice([-8.0, -0.75, 0.25, 1.0, 16.5, 1024.0])
-            sh = call_impl({**case, "obs": [y + c for y in obs], "ens": [[x + c for x in r] for r in ens], "layout": "flat"})
-            self.cmp_all("crps/shift_dependent", "result changes when a constant is added to observations and members",
-                         case, res, sh, tolg, extra={"shift": c})
-            s = rng.choice([0.5, 2.0, 0.0078125, 64.0])
-            sc = call_impl({**case, "obs": [y * s for y in obs], "ens": [[x * s for x in r] for r in ens], "layout": "flat"})
+            # data on a dyadic grid of granule 2^q below 2^e: shifts by multiples of the granule and scales by
+            # powers of two are exact as long as the moved data stays inside [2^BOTTOM granule, 2^TOP]
+            q = 0 if q is None else q
+            e = q + 1 if e is None else e
+            unit = Fraction(2) ** (q + 2)
+            big = Fraction(max([abs(v) for v in vals if math.isfinite(v)] + [0.0]))
+            top = dom_exp(n, m)
+            cands = [c for c in (-8.0, -0.75, 0.25, 1.0, 16.5, 1024.0) if big + abs(Fraction(c)) * unit <= Fraction(2) ** top]
+            if cands:
+                c = float(Fraction(rng.choice(cands)) * unit)
+                sh = call_impl({**case, "obs": [y + c for y in obs], "ens": [[x + c for x in r] for r in ens], "layout": "flat"})
+                self.cmp_all("crps/shift_dependent", "result changes when a constant is added to observations and members",
+                             case, res, sh, tolg, extra={"shift": c})
+            # scale: a few ordinary powers of two, or all the way to the top / bottom of the double range
+            js = [j for j in (-1, 1, -7, 6, top - e, top - 1 - e, 512 - e, -520 - q, BOTTOM - q)
+                  if e + j <= top and q + j >= BOTTOM]
+            j = rng.choice(js) if js else 0
+            sc = call_impl({**scaled(case, j), "layout": "flat"})
             self.cmp_all("crps/scale_not_linear", "result does not scale linearly with a positive factor", case, res, sc,
-                         tolg, factor=s, extra={"scale": s})
+                         tolg, factor=Fraction(2) ** j, extra={"scale": f"2^{j}"})
         else:
             fo, fe = finite_part(case)
-            big = max([abs(v) for v in fo] + [abs(x) for r in fe for x in r] + [0.0])
-            c = rng.choice([-3.7, 0.1, 12.3, 1e3]) * (1.0 if big == 0 else 2.0 ** math.floor(math.log2(big)))
-            for kind, fun, fac in (("shift", lambda v: v + c, 1.0), ("scale", lambda v: v * abs(c), abs(c))):
+            big = Fraction(max([abs(v) for v in fo] + [abs(x) for r in fe for x in r] + [0.0]))
+            e = 1 if e is None else e
+            top = dom_exp(n, m)
+            lim = Fraction(2) ** top
+            # inexact shift: a constant of the size of the data (when the sum stays inside the oracle's domain)
+            cs = [r for r in (-3.7, 0.1, 12.3, 1e3) if big + abs(Fraction(r)) * Fraction(2) ** (e - 1) <= lim]
+            # inexact scale: rho 2^j with j = 0, towards the top, towards the bottom of the range
+            rho = rng.choice([0.1, 3.7, 12.3])
+            j = rng.choice([0, 0, rng.randint(-20, 20), top - 5 - e, -900 - e])
+            if not (big * Fraction(rho) * Fraction(2) ** j <= lim):
+                j = 0 if big * Fraction(rho) <= lim else -e
+            fac = Fraction(rho) * Fraction(2) ** j
+            todo = [("scale", lambda v: math.ldexp(v, j) * rho, fac, None)]
+            if cs:
+                c = math.ldexp(rng.choice(cs), e - 1)
+                todo.insert(0, ("shift", lambda v: v + c, Fraction(1), c))
+            for kind, fun, fac, cst in todo:
                 other = call_impl({**case, "obs": [fun(y) for y in obs], "ens": [[fun(x) for x in r] for r in ens], "layout": "flat"})
+                cst = cst if kind == "shift" else f"{rho}*2^{j}"
                 if other[0] != "ok":
-                    self.flag(f"crps/{kind}_rejected", f"call rejected after {kind}", case, reply=other[1], constant=c)
+                    self.flag(f"crps/{kind}_rejected", f"call rejected after {kind}", case, reply=other[1], constant=cst)
                     continue
                 # CRPS and uncertainty are 1-Lipschitz in the sup norm of the inputs: rounding of v+c / v*c only
-                delta = Fraction(EPS) * Fraction(big * (fac if kind == "scale" else 1.0) + (abs(c) if kind == "shift" else 0.0))
-                tol = 4 * delta + tolg * Fraction(fac)
+                delta = Fraction(EPS) * (big * fac + (abs(Fraction(cst)) if kind == "shift" else 0))
+                tol = 4 * delta + tolg * fac + self.floor
                 for k in (0, 3):
-                    if not qclose(other[1][k], fr(res[1][k]) * Fraction(fac), tol):
+                    if not qclose(other[1][k], fr(res[1][k]) * fac, tol):
                         self.flag("crps/shift_dependent" if kind == "shift" else "crps/scale_not_linear",
-                                  f"{DEC[k]} not invariant/linear under {kind}", case, constant=c,
+                                  f"{DEC[k]} not invariant/linear under {kind}", case, constant=cst,
                                   before=res[1][k], after=other[1][k])
 
     def missing(self, case, res):
@@ -425,12 +510,40 @@ def gen_cases(ctx):
             ens.append(row)
         add("outlier/" + mode, obs, ens, grid=True)
 
+    # 3b. the whole exponent range of finite doubles: tie-rich / outlier-rich grid data times 2^k, with k taking
+    # the data to the edge of the oracle's domain (largest value just below 2^dom_exp(n, m): the un-normalised
+    # sums are still finite, four times larger data would overflow them), to 2^TOP (correspondence with the model
+    # only: the kernel as written is exact there), to where a squared difference overflows / underflows (2^512,
+    # 2^-520), and to the bottom (granule 2^BOTTOM); n up to 70 so that many terms of the largest size are summed
+    for _ in range(ctx.scale(240, 2400)):
+        n = rng.choice([1, 2, 3, rng.randint(4, 12), rng.randint(13, 70)])
+        m = rng.choice([1, 2, rng.randint(3, 9)])
+        vs = grid_values(rng) + [rng.randint(-12, 12) / 4 for _ in range(3)]
+        mode = rng.choice(["any", "any", "above", "below", "const"])
+        obs, ens = [], []
+        for i in range(n):
+            row = [rng.choice(vs) for _ in range(m)] if mode != "const" else [rng.choice(vs)] * m
+            y = {"any": rng.choice(vs), "const": rng.choice(vs), "above": max(row) + rng.randint(0, 4) / 4,
+                 "below": min(row) - rng.randint(0, 4) / 4}[mode]
+            obs.append(y)
+            ens.append(row)
+        vals = obs + [x for r in ens for x in r]
+        e, q = top_exp(vals), granule_exp(vals)
+        if e is None:
+            continue
+        band = rng.choice(["top", "top", "top-1", "abs_top", "sq_over", "sq_under", "bottom", "mid"])
+        top = dom_exp(n, m)
+        j = {"top": top - e, "top-1": top - 1 - e, "abs_top": TOP - e, "sq_over": rng.randint(505, 530) - e, "sq_under": -rng.randint(515, 545) - q,
+             "bottom": BOTTOM - q, "mid": rng.randint(-400, 400)}[band]
+        c = scaled({"obs": obs, "ens": ens}, j)
+        add(f"magnitude/{band}/{mode}", c["obs"], c["ens"], grid=True)
+
     # 4. random normal, wide dynamic range, larger sizes
     for _ in range(ctx.scale(500, 5000)):
         n = rng.choice([1, 2, 3, rng.randint(1, 40)])
         m = rng.choice([1, 2, rng.randint(1, 30)])
-        sc = 10.0 ** rng.choice([0, 0, 0, -100, -8, 3, 9, 100])
-        loc = rng.choice([0.0, 0.0, 5.0, -1e3]) * sc
+        sc = 10.0 ** rng.choice([0, 0, 0, -100, -8, 3, 9, 100, -290, -160, 160, 300])
+        loc = rng.choice([0.0, 0.0, 5.0, -1e3 if sc < 1e299 else -7.0]) * sc
         obs = [loc + sc * rng.gauss(0, 1) for _ in range(n)]
         ens = [[loc + sc * rng.gauss(0, 1) * rng.choice([1, 1, 3]) for _ in range(m)] for _ in range(n)]
         if rng.random() < 0.3:           # plant exact ties between members and with the observation
@@ -493,11 +606,14 @@ def gen_cases(ctx):
 
 
 def in_quantifier(case):
-    """inside the property's region: shapes agree, m >= 1, members finite, some observation present"""
+    """inside the property's region: shapes agree, m >= 1, members finite, some observation present; and
+    |values| <= 2^dom_exp(n, m): the defining sums are finite doubles in every order of summation / normalisation"""
     if len(case["obs"]) != len(case["ens"]) or case["m"] < 1:
         return False
     obs, ens = finite_part(case)
-    return len(obs) >= 1 and all(math.isfinite(x) for r in ens for x in r) and all(math.isfinite(y) for y in obs)
+    lim = 2.0 ** dom_exp(len(case["obs"]), case["m"])
+    return (len(obs) >= 1 and all(math.isfinite(x) and abs(x) <= lim for r in ens for x in r) and
+            all(math.isfinite(y) and abs(y) <= lim for y in obs))
 
 
 def kept_all_finite(case):
@@ -525,6 +641,23 @@ def run_cases(ctx, cases, tag, precomputed=None):
     replies = ctx.lean.ask(reqs)
     replies_q = ctx.lean.ask(reqs_q)
     qmap = dict(zip(idx_q, replies_q))
+    # the definition the theorems compare with (`definitionCrps`, run exactly over Rat by the driver) is the
+    # definition the oracle uses: equal as rationals
+    idx_d = [k for k in idx_q if in_quantifier(cases[k])]
+    reqs_d = []
+    for k in idx_d:
+        c = cases[k]
+        reqs_d.append(f"crpsdef {len(c['ens'])} {c['m']} [" + ",".join("nan" if isnan(y) else C.rat(y) for y in c["obs"]) + "] [" +
+                      ",".join(C.rat(x) if math.isfinite(x) else "0" for r in c["ens"] for x in r) + "]")
+    for k, rep in zip(idx_d, ctx.lean.ask(reqs_d)):
+        fo, fe = finite_part(cases[k])
+        want = exact_parts(fo, fe)["crps"]
+        tk = rep.split()
+        slim = {kk: cases[k][kk] for kk in ("family", "obs", "ens", "m") if kk in cases[k]}
+        if len(tk) == 2 and tk[0] == "ok" and Fraction(tk[1]) == want:
+            ctx.compare("C03/definition", slim, "agree", "agree")
+        else:
+            ctx.compare("C03/definition", slim, str(want), rep[:200])
     for k, (case, res, rep) in enumerate(zip(cases, results, replies)):
         fam = case.get("family", tag)
         n, m = len(case["obs"]), case["m"]
@@ -576,10 +709,11 @@ def shape_stream(ctx):
     for _ in range(ctx.scale(400, 3000)):
         n, m = rng.choice([1, 1, 2, 3, rng.randint(1, 7)]), rng.choice([1, 2, rng.randint(1, 5)])
         okind = rng.choice(["vec", "col", "col", "row", "col3", "scalar", "mat", "mat_t", "empty", "other_len"])
-        ekind = rng.choice(["mat", "mat", "mat", "vec", "scalar", "mat_t", "zero_cols", "zero_rows"])
+        ekind = rng.choice(["mat", "mat", "mat", "vec", "scalar", "mat_t", "zero_cols", "zero_rows", "cube"])
         oshape = {"vec": (n,), "col": (n, 1), "row": (1, n), "col3": (n, 1, 1), "scalar": (), "mat": (n, 2) if n > 1 else (2, 2),
                   "mat_t": (2, n) if n > 1 else (3, 2), "empty": (0,), "other_len": (n + 1,)}[okind]
-        eshape = {"mat": (n, m), "vec": (m,), "scalar": (), "mat_t": (m, n), "zero_cols": (n, 0), "zero_rows": (0, m)}[ekind]
+        eshape = {"mat": (n, m), "vec": (m,), "scalar": (), "mat_t": (m, n), "zero_cols": (n, 0), "zero_rows": (0, m),
+                  "cube": rng.choice([(n, m, 1), (n, 1, m), (1, n, m), (n, m, n), (n, n, m), (n, m, 2), (1, 1, m)])}[ekind]
         vs = grid_values(rng)
         o = np.array([rng.choice(vs) for _ in range(int(np.prod(oshape)))], dtype=np.float64).reshape(oshape)
         e = np.array([rng.choice(vs) for _ in range(int(np.prod(eshape)))], dtype=np.float64).reshape(eshape)
@@ -603,7 +737,14 @@ def shape_stream(ctx):
             elif canon(flat) != canon(res):
                 ctx.finding("crps/layout_changes_result", "the [n,1] observation layout gives another result than [n]", case)
     for req, res, rep, case in zip(reqs, impls, ctx.lean.ask(reqs), cases):
-        if same_float(res, parse_model(rep)):
+        model = parse_model(rep)
+        if len(case["ens_shape"]) > 2:
+            # never answered: the model says ensNot2D (or obsNot1D first); the code raises a ValueError or an
+            # IndexError depending on how the shapes broadcast - only "rejected" is compared
+            ok = res[0] == "err" and model[0] == "err"
+        else:
+            ok = same_float(res, model)
+        if ok:
             ctx.compare("C03/shape", case, "agree", "agree")
         else:
             ctx.compare("C03/shape", case, canon(res)[:1500], rep[:1500])
@@ -646,7 +787,7 @@ def history_stream(ctx):
         obs = np.array([rng.choice(vs) for _ in range(n)], dtype=np.float64)
         ens = np.array([[rng.choice(vs) for _ in range(m)] for _ in range(n)], dtype=np.float64)
         steps = [rng.choice(["edit_returned", "edit_obs", "edit_ens", "sort_row", "reverse", "nan_toggle", "other_args",
-                             "roundtrip"]) for _ in range(rng.randint(1, 3))]
+                             "other_size", "other_size", "rejected_call", "roundtrip"]) for _ in range(rng.randint(1, 3))]
         fam = "history/" + "+".join(steps)
         held = []            # (snapshot of an earlier answer, the live objects)
         res, d, t = call_arrays(obs, ens)
@@ -679,6 +820,19 @@ def history_stream(ctx):
                 r2 = call_arrays(o2, e2)[0]
                 cases.append(snap(o2, e2, fam))
                 results.append(r2)
+            elif st == "other_size":
+                # a call with more / fewer forecasts and members in between (anything kept per size between calls)
+                n2, m2 = rng.choice([1, n + rng.randint(1, 30), max(1, n - 1), rng.randint(1, 60)]), rng.choice([1, m + 3, rng.randint(1, 9)])
+                o2 = np.array([rng.choice(vs) for _ in range(n2)], dtype=np.float64)
+                e2 = np.array([[rng.choice(vs) for _ in range(m2)] for _ in range(n2)], dtype=np.float64)
+                if n2 > 1 and rng.random() < 0.3:
+                    o2[rng.randrange(n2)] = NAN
+                cases.append(snap(o2, e2, fam))
+                results.append(call_arrays(o2, e2)[0])
+            elif st == "rejected_call":
+                # a call that fails (length mismatch / nothing valid) must leave nothing behind
+                # (what such a call returns is compared with the model in the malformed stream)
+                call_arrays(np.full(n + 1, 1.0) if rng.random() < 0.5 else np.full(n, NAN), ens)
             elif st == "roundtrip":
                 o_call = pickle.loads(pickle.dumps(obs)) if rng.random() < 0.5 else copy.deepcopy(obs)
                 e_call = pickle.loads(pickle.dumps(ens)) if rng.random() < 0.5 else copy.deepcopy(ens)
@@ -695,6 +849,119 @@ def history_stream(ctx):
                                     {**cases[-1], "steps": steps})
             held.append((res, d, t))
     run_cases(ctx, cases, "history", precomputed=results)
+
+
+def pyx_stream(ctx):
+    """the extension-level entry point `c_hydrodiy_stat.crps(use_weights, is_sorted, obs, sim, weights, table,
+    decompos)` driven directly: histories of 2-7 operations on ONE pair of output arrays (fill with a value |
+    plain call | call on the same arrays again, which accumulates | explicit weights | is_sorted=1 on sorted
+    rows | is_sorted=1 on unsorted rows -> EDOM | wrong shapes -> AssertionError | zero forecasts | flag values
+    other than 0/1). After every operation the content of both arrays and the outcome are compared with the
+    model (`runOps`, <= 4 ulp); a failing operation must leave both arrays bit-for-bit as they were; explicit
+    uniform weights and is_sorted=1 on sorted rows must give bit-for-bit the plain answer (theorems
+    failing_op_leaves_outputs, explicit_uniform_weights_same, sorted_flag_same)."""
+    import numpy as np
+    import c_hydrodiy_stat as cs
+    rng = ctx.rng
+    reqs, runs = [], []
+
+    def state(dec, tab):
+        return ("ok", [float(x) for x in dec], [float(x) for x in tab.ravel()])
+
+    def do_call(uw, srt, obs, sim, w, tab, dec):
+        try:
+            ierr = cs.crps(uw, srt, obs, sim, w, tab, dec)
+        except AssertionError:
+            return "assertion"
+        return "ok" if ierr == 0 else ("edom" if ierr == errno.EDOM else f"ierr{ierr}")
+
+    for _ in range(ctx.scale(200, 2000)):
+        m = rng.randint(1, 5)
+        tab, dec = np.zeros((m + 1, 7)), np.zeros(5)
+        vs = grid_values(rng) + [rng.randint(-12, 12) / 4 for _ in range(2)]
+        toks, outs, kinds = [], [], []
+        for step in range(rng.randint(2, 7)):
+            kind = "fill0" if step == 0 and rng.random() < 0.8 else rng.choice(
+                ["fill0", "fill", "call", "call", "again", "weights", "uniform_weights", "sorted_ok", "sorted_bad",
+                 "assert_len", "assert_cols", "n0", "flags"])
+            before = (dec.copy(), tab.copy())
+            if kind in ("fill0", "fill"):
+                v = 0.0 if kind == "fill0" else rng.choice([1.0, -2.5, 0.125, 7.0])
+                tab[...] = v
+                dec[...] = v
+                toks.append(f"fill {C.f2h(v)}")
+                outs.append(("ok", state(dec, tab)))
+                kinds.append(kind)
+                continue
+            n = 0 if kind == "n0" else rng.choice([1, 2, 3, rng.randint(1, 9)])
+            cols = m if kind != "assert_cols" else rng.choice([m + 1, max(1, m - 1) if m > 1 else m + 2])
+            obs = np.array([rng.choice(vs) for _ in range(n)], dtype=np.float64)
+            sim = np.array([[rng.choice(vs) for _ in range(cols)] for _ in range(n)], dtype=np.float64).reshape(n, cols)
+            uw, srt = 0, 0
+            w = np.zeros(rng.choice([n, n, 0, n + 2]))
+            if kind == "again" and kinds and any(k == "call" for k in kinds):
+                obs, sim, w = last_args
+            if kind == "assert_len":
+                obs = np.array([rng.choice(vs) for _ in range(n + rng.choice([1, 2]))], dtype=np.float64)
+            if kind == "weights":
+                raw = [rng.choice([1, 1, 2, 3, 0]) for _ in range(n)]
+                tot = sum(raw) or 1
+                w = np.array([r / tot for r in raw] + [9.0] * rng.choice([0, 0, 2]), dtype=np.float64)
+                uw = 1
+            if kind == "uniform_weights":
+                w = np.array([1.0 / n if n else 0.0] * n + [5.0] * rng.choice([0, 1]), dtype=np.float64)
+                uw = 1
+            if kind in ("sorted_ok", "sorted_bad"):
+                sim = np.sort(sim, axis=1)
+                srt = rng.choice([1, 1, 2, -1])
+                if kind == "sorted_bad" and cols >= 2 and n >= 1:
+                    i = rng.randrange(n)
+                    lo, hi = sim[i, 0], sim[i, -1]
+                    if lo == hi:
+                        sim[i, -1] = hi = lo + 1.0
+                    sim[i, 0], sim[i, -1] = hi, lo
+            if kind == "flags":
+                uw, srt = rng.choice([2, -1, 0]), 0
+            if kind == "call":
+                last_args = (obs, sim, w)
+            out = do_call(uw, srt, obs, sim, w, tab, dec)
+            toks.append(f"call {uw} {srt} {sim.shape[0]} {sim.shape[1]} {C.flist(obs)} {C.flist(sim.ravel())} {C.flist(w)}")
+            outs.append((out, state(dec, tab)))
+            kinds.append(kind)
+            case = {"family": "pyx/" + kind, "m": m, "history": kinds[:], "use_weights": uw, "is_sorted": srt,
+                    "obs": [float(x) for x in obs], "sim": [[float(x) for x in r] for r in sim], "weights": [float(x) for x in w]}
+            if out != "ok" and not (np.array_equal(before[0], dec, equal_nan=True) and np.array_equal(before[1], tab, equal_nan=True)):
+                ctx.disagree("a failing extension-level call changed the output arrays", case)
+            # bit-for-bit relations on the real code (run on scratch arrays holding what the arrays held before)
+            if out == "ok" and kind in ("uniform_weights", "sorted_ok"):
+                d2, t2 = before[0].copy(), before[1].copy()
+                o2 = do_call(0, srt if kind == "uniform_weights" else 0, obs, sim, np.zeros(len(obs)), t2, d2)
+                if o2 != "ok" or C.flist(d2) != C.flist(dec) or C.flist(t2.ravel()) != C.flist(tab.ravel()):
+                    ctx.disagree("explicit uniform weights / is_sorted=1 on sorted rows differ from the plain call", case)
+            ctx.count(("pyx", m, kinds[-1], case["obs"], case["sim"], case["weights"], uw, srt), out == "ok" and len(obs) > 0,
+                      branch="pyx/" + kind + ("" if out == "ok" else "->" + out))
+        reqs.append(f"pyxrun {m} | " + " | ".join(toks))
+        runs.append((m, kinds, outs))
+    for req, (m, kinds, outs), rep in zip(reqs, runs, ctx.lean.ask(reqs)):
+        parts = rep.split(" | ")
+        case = {"family": "pyx/history", "m": m, "history": kinds, "request": req[:3000]}
+        if len(parts) != len(outs) + 1 or not parts[-1].startswith("final "):
+            ctx.compare("C03/pyx", case, "history of %d operations" % len(outs), rep[:300])
+            continue
+        good = True
+        for (out, st), part in zip(outs, parts[:-1]):
+            tk = part.split()
+            mout = tk[1] if tk[0] == "err" else "ok"
+            mst = parse_model(" ".join(tk[2:] if tk[0] == "err" else tk))
+            if mout != out or not same_float(st, mst):
+                good = False
+                ctx.compare("C03/pyx", {**case, "step": len(kinds)}, out + " " + canon(st)[:1200], part[:1200])
+                break
+        if good and not same_float(outs[-1][1], parse_model(parts[-1][len("final "):])):
+            good = False
+            ctx.compare("C03/pyx", case, canon(outs[-1][1])[:1200], parts[-1][:1200])
+        if good:
+            ctx.compare("C03/pyx", case, "agree", "agree")
 
 
 def large_n(ctx):
@@ -749,12 +1016,16 @@ def body(ctx):
     run_cases(ctx, gen_cases(ctx), "gen")
     shape_stream(ctx)
     history_stream(ctx)
+    pyx_stream(ctx)
     large_n(ctx)
     ctx.extra["rule"] = __doc__.split("Cases:")[1].strip()
     ctx.assumptions += [
         "glibc qsort returns a sorted permutation (model parameter `sort`, hypothesis SortOK; the driver uses a stable merge sort)",
         "IEEE rounding is executed (Float instance, <= 4 ulp to the code), not proved: theorems are over ordered fields",
         "members of kept forecasts are finite (a kept forecast with some NaN members is outside the modelled domain)",
+        "the oracle flags only where |values| <= 2^1022 / (4 max(n, m)^2), i.e. where the un-normalised defining sums (over forecasts, over ordered pairs of observations / members) are finite doubles in any order of summation and normalisation; between that bound and 2^1021 (where the kernel as written is still exact) data is generated for the model/code correspondence only; nothing larger is generated (a single x - y need not be finite)",
+        "extension level: use_weights = 1 with fewer weights than forecasts and ncol = 0 make c_crps read outside its arrays; never generated (model declines: weightsLen / shape)",
+        "IEEE double arithmetic short of overflow is a monotone idempotent rounding of exact arithmetic fixing 0 and 1 (what signs_under_any_monotone_rounding is instantiated with; trusted)",
         "numpy astype/atleast_nd/boolean indexing and pandas notnull are exercised through the wrapper, not modelled internally",
     ]
 
